@@ -65,9 +65,18 @@ class BaseValidator(object):
 
     def __exit__(self, exc_type, exc_val, exc_tb):
         """
-        Simply call :py:meth:`~.close()`.
+        Simply call :py:meth:`~.close()`. In case an error is already on its
+        way, keep it instead of replacing it by a possible
+        :py:exc:`cutplace.errors.CheckError` from the checks at the end,
+        which are pointless for data that have not been processed completely.
         """
-        self.close()
+        if exc_type is None:
+            self.close()
+        else:
+            try:
+                self.close()
+            except errors.CheckError:
+                pass
 
     @property
     def cid(self):
